@@ -300,7 +300,49 @@ def ground_verify_country_data(repo, tier, seed):
 
 CONTRACTS = [WeightedAverage()] + [EvenAverage(n) for n in (1, 2, 3, 5)] + \
     [SecondCallAndFrame(w, nd) for nd in (False, True) for w in ("even", "weighted")]
-EXTRA = [ground_table, ground_verify_country_data]
+def non_finite_values_bounded(repo, tier, seed):
+    """BOUNDED stand-in, not a proof: the contracts above treat floats as reals, where an infinite 'impossible' value does
+    not exist.  The real helpers are therefore RUN (CPython, /venv) on a fixed list of inputs containing +inf / -inf among
+    valid values; the answer must be the (weighted) mean of the valid ones.  Labelled bounded, never counted as proved."""
+    import json, subprocess, time
+    t0 = time.time()
+    script = r"""
+import json, sys, math
+sys.path.insert(0, sys.argv[1])
+from src.utilities.import_utilities import ImportUtilities as U
+inf = float('inf')
+cases = [
+  ("average_percentages", [[inf, 50.0, 70.0]], 60.0),
+  ("average_percentages", [[-inf, 50.0, 70.0]], 60.0),
+  ("average_percentages", [[10.0, inf, -inf, 30.0]], 20.0),
+  ("weighted_average_percentages", [[inf, 50.0, 80.0], [0.5, 0.25, 0.25]], 65.0),
+  ("weighted_average_percentages", [[40.0, -inf, 80.0], [0.25, 0.5, 0.25]], 60.0),
+  ("weighted_average_percentages", [[40.0, inf, 80.0], [0.5, 0.0, 0.5]], 60.0),
+]
+out = []
+for name, args, want in cases:
+    try:
+        got = getattr(U, name)(*args)
+        ok = isinstance(got, float) and not math.isnan(got) and abs(got - want) <= 1e-9 * max(1.0, abs(want))
+        out.append([name, repr(args), repr(got), want, bool(ok)])
+    except Exception as e:
+        out.append([name, repr(args), type(e).__name__ + ': ' + str(e), want, False])
+print(json.dumps(out))
+"""
+    try:
+        r = subprocess.run(["/venv/bin/python", "-c", script, repo], cwd=repo, capture_output=True, text=True, timeout=120)
+        rows = json.loads(r.stdout.strip().splitlines()[-1])
+        bad = [x for x in rows if not x[4]]
+        ok, detail = not bad, f"{len(rows)} inputs run natively; wrong: {bad[:3]}"
+        status = "discharged" if ok else "failed"
+    except Exception as e:
+        ok, status, detail = False, "error", f"{type(e).__name__}: {e}"
+    return [{"name": "C17/bounded/non_finite_impossible_values_are_ignored", "kind": "bounded", "bounded": True, "status": status, "backend": "CPython (native run)",
+             "seconds": round(time.time() - t0, 2), "detail": detail, "goal": "+-inf among valid values: the answer is the mean of the valid ones (6 fixed inputs)",
+             "replay_verdict": None if ok else "violation", "replay": None if ok else {"verdict": "violates-natively", "detail": detail}}]
+
+
+EXTRA = [ground_table, ground_verify_country_data, non_finite_values_bounded]
 TRUSTED = [
     "machine floats treated as mathematical reals (sentinel 9.37e36 exact)",
     "induction schema behind prefix sums; CSV cells parsed with float()",
